@@ -1,6 +1,6 @@
 (** C02: -inline and -switch never change what the generated parser accepts or records. *)
 From PegV Require Import Base.Tac Spec.Syntax Spec.Peg Spec.WF Model.Machine Model.SkipCheck Model.Optimize Model.Gen
-  Proofs.FirstSound Proofs.OptSound Proofs.Top Proofs.OptTop Properties.Example.
+  Proofs.FirstSound Proofs.OptSound Proofs.OptSwok Proofs.Top Proofs.OptTop Properties.Example.
 Local Open Scope nat_scope.
 
 (** For one grammar term [g] (the tree the generator compiles), every combination of the memo and
@@ -44,6 +44,36 @@ Theorem C02_switch_invisible :
       (b = true -> pos st1 = pos st2 /\ Machine.live st1 = Machine.live st2).
 Proof. exact c02_switch_invisible. Qed.
 Print Assumptions C02_switch_invisible.
+
+(** The same without any side condition on the analysis or on the optimised tree: a grammar with a
+    well-formedness certificate whose literals are code points and whose ranges are in order (no
+    switch node yet) is all that is needed.  That the fixed-point iteration yields a consistent table,
+    that the optimised tree has only code-point keys and that every switch it contains is well guarded
+    - each case body may drop its first-character test - are theorems (Proofs/OptSwok.v); when the
+    iteration does not stabilise within its bound the pass leaves the tree alone. *)
+Theorem C02_switch_invisible_unconditional :
+  forall g tab rank, wf_b g tab rank = true -> good_grammar g ->
+  (forall r b, nth_error g r = Some (RBody b) -> ranges_ok b = true) ->
+  forall ptx buf penv, good_buf buf -> valid_buf buf ->
+  forall memo memo' inline inline' r rb st0 st0',
+    nth_error g r = Some rb -> rb <> RNil ->
+    slot_ok g inline r -> slot_ok (optimize g) inline' r ->
+    exists n b st1 st2,
+      machine g ptx buf penv memo inline n r st0 = Some (Ret b st1) /\
+      machine (optimize g) ptx buf penv memo' inline' n r st0' = Some (Ret b st2) /\
+      (b = true -> pos st1 = pos st2 /\ Machine.live st1 = Machine.live st2).
+Proof. exact c02_switch_invisible_strong. Qed.
+Print Assumptions C02_switch_invisible_unconditional.
+
+(** the switches built by the pass are always well guarded, and its keys are code points *)
+Theorem C02_optimised_tree_well_guarded :
+  forall g tab rank, wf_b g tab rank = true -> good_grammar g ->
+  (forall r b, nth_error g r = Some (RBody b) -> ranges_ok b = true) ->
+  good_switches (optimize g) /\ good_grammar (optimize g).
+Proof.
+  intros g tab rank Hwf Hg Hro. split; [exact (optimize_good_switches g tab rank Hwf Hro)|exact (optimize_good_grammar g tab rank Hwf Hg Hro)].
+Qed.
+Print Assumptions C02_optimised_tree_well_guarded.
 
 (** the semantic core of it: the optimised tree has exactly the results (verdict, prefix, forest) of
     the original one, in both directions *)
